@@ -292,6 +292,10 @@ type Explorer struct {
 	Shard, NShards int
 	// SecondLevel restricts deviations beyond the first to points whose site it accepts (nil: all).
 	SecondLevel func(site string) bool
+	// SecondArity caps the number of alternatives tried at deviations beyond the first (0: no cap). The menu is
+	// ordered so that its head holds the structurally different orders (for n <= 5 the lexicographic list of all
+	// orders; otherwise reverse, then every move-to-front).
+	SecondArity int
 }
 
 // Explore runs the depth-first enumeration.
@@ -343,7 +347,11 @@ func (x *Explorer) explore(prefix []int, deviations int) {
 		if deviations+cost > x.Bound {
 			continue
 		}
-		for alt := 1; alt < e.Points[i].Arity; alt++ {
+		arity := e.Points[i].Arity
+		if deviations > 0 && x.SecondArity > 0 && arity > x.SecondArity {
+			arity = x.SecondArity
+		}
+		for alt := 1; alt < arity; alt++ {
 			next := append(append([]int{}, choices[:i]...), alt)
 			x.explore(next, deviations+cost)
 			if x.Capped {
